@@ -346,6 +346,10 @@ func (ss *Sorts) sortOf1(t types.Type) Sort {
 	case *types.Slice:
 		es := ss.sortOf(tt.Elem())
 		name := Sort("Sl_" + string(es))
+		if ss.busy[es] {
+			ss.declare(&sortInfo{Name: name, Kind: "opaque", Decl: fmt.Sprintf("(declare-sort %s 0)", name), GoType: t})
+			return name
+		}
 		ss.declare(&sortInfo{Name: name, Kind: "slice", Elem: tt.Elem(), GoType: t,
 			Decl: fmt.Sprintf("(declare-datatypes ((%s 0)) (((mk.%s (len.%s Int) (arr.%s (Array Int %s)) (isnil.%s Bool)))))", name, name, name, name, es, name)})
 		return name
@@ -356,6 +360,10 @@ func (ss *Sorts) sortOf1(t types.Type) Sort {
 		ks := ss.sortOf(tt.Key())
 		vs := ss.sortOf(tt.Elem())
 		name := Sort("Mp_" + sanitize(string(ks)) + "_" + sanitize(string(vs)))
+		if ss.busy[vs] || ss.busy[ks] {
+			ss.declare(&sortInfo{Name: name, Kind: "opaque", Decl: fmt.Sprintf("(declare-sort %s 0)", name), GoType: t})
+			return name
+		}
 		ss.declare(&sortInfo{Name: name, Kind: "map", Elem: tt.Elem(), Key: tt.Key(), GoType: t,
 			Decl: fmt.Sprintf("(declare-datatypes ((%s 0)) (((mk.%s (has.%s (Array %s Bool)) (get.%s (Array %s %s)) (card.%s Int) (isnil.%s Bool)))))", name, name, name, ks, name, ks, vs, name, name)})
 		return name
@@ -387,7 +395,7 @@ func (ss *Sorts) sortOf1(t types.Type) Sort {
 }
 
 func (ss *Sorts) declareFn() {
-	ss.declare(&sortInfo{Name: SFn, Kind: "opaque", Decl: "(declare-sort Fn 0)"})
+	ss.declare(&sortInfo{Name: SFn, Kind: "opaque", Decl: "(declare-sort Fn 0)\n(declare-const fn.nil Fn)"})
 }
 
 func (ss *Sorts) structSort(name Sort, u *types.Struct, gt types.Type) Sort {
@@ -395,7 +403,8 @@ func (ss *Sorts) structSort(name Sort, u *types.Struct, gt types.Type) Sort {
 		return name
 	}
 	if ss.busy[name] {
-		panic(fmt.Sprintf("recursive struct sort %s", name))
+		// recursive type: the enclosing pointer/slice/map becomes an opaque sort
+		return name
 	}
 	ss.busy[name] = true
 	si := &sortInfo{Name: name, Kind: "struct", GoType: gt}
@@ -533,6 +542,7 @@ func (ss *Sorts) zeroOfSort(s Sort, t types.Type) Term {
 	case SReal:
 		return Term{"0.0", SReal, t}
 	case SFn:
+		ss.declareFn()
 		return Term{"fn.nil", SFn, t}
 	}
 	if strings.HasPrefix(string(s), "(Array Int ") {
